@@ -135,6 +135,15 @@ theorem C14_stop_all_descending (base : Nat) (h : History) (i : Nat) (c : Cfg) (
     p.running.reverse.Pairwise (· > ·) := by
   rw [List.pairwise_reverse]; exact (World.runSorted_run base h i c p hc hp).asc
 
+/-- a task that has just been created is the newest: it is filed at the end of the running registry under the id
+`len(tasks)` (greater than every id in the registry, `C11_running_ids_ascending`), so a `stop(1)` at that moment names it -/
+theorem C14_new_task_is_newest (p : Pool) (m : Nat) (isMap : Bool) :
+    (p.createTask m isMap).running = p.running ++ [p.tasks.length] ∧
+    (p.createTask m isMap).running.reverse.take 1 = [p.tasks.length] := by
+  have h : (p.createTask m isMap).running = p.running ++ [p.tasks.length] := by
+    simp [createTask, emitRef, modReq]
+  exact ⟨h, by rw [h]; simp⟩
+
 /-! Non-vacuity with a gap: four started tasks, task 2 cancelled individually, `stop 2` names 3 and 1 (not 2), 0 is left. -/
 def C14_demo_gap : History :=
   [.mkpool none (some Pool.gatedSpec) none, .on 0 [] (.start 4), .run 0 [], .run 0 [], .run 0 [], .run 0 [], .run 0 [],
